@@ -67,9 +67,111 @@ fn hist<W: WorldDriver>(m: &HashMap<String, String>) -> i32 {
     println!("STATS prop={} world={} evaluations={} nontrivial={} ops={}", prop, W::NAME, res.stats.evaluations, res.stats.nontrivial_hashes.len(), res.stats.ops_run);
     if let Some((case, f)) = res.failure {
         let path = m.get("fail-out").cloned().unwrap_or_else(|| format!("fail-{}-{}.ops", prop, seed));
-        let text = format!("# property {}\n# {}\n# failed at step {} [{}] sig={}\n{}", prop, one_line(&f.msg), f.step, f.tags.join("+"), f.sig, case.to_text());
+        let (psig, pmsg) = f.for_prop(prop);
+        let text = format!("# property {}\n# {}\n# failed at step {} [{}] sig={}\n{}", prop, one_line(&pmsg), f.step, f.tags.join("+"), psig, case.to_text());
         std::fs::write(&path, text).expect("write replay");
-        println!("FAIL prop={} sig={} tags={} step={} replay={} msg={}", prop, f.sig, f.tags.join("+"), f.step, path, one_line(&f.msg));
+        let (sig, msg) = f.for_prop(prop);
+        println!("FAIL prop={} sig={} tags={} step={} replay={} msg={}", prop, sig, f.tags.join("+"), f.step, path, one_line(&msg));
+        return 1;
+    }
+    0
+}
+
+fn default_pops(n: usize, variant: usize) -> Vec<(u8, Option<u8>)> {
+    // a few fixed populations: all populated; some empty; with removals at different positions
+    (0..n)
+        .map(|a| match variant % 8 {
+            0 => (3, None),
+            1 => (3, Some(0)),
+            2 => (3, Some(2)),
+            3 => (if a % 2 == 0 { 0 } else { 2 }, None),
+            4 => (if a % 2 == 1 { 0 } else { 2 }, Some(1)),
+            5 => (1, None),
+            6 => (1, Some(0)),
+            _ => (2, Some(a as u8)),
+        })
+        .collect()
+}
+
+fn bmatrix<W: WorldDriver>(m: &HashMap<String, String>) -> i32 {
+    let variant: usize = m.get("variant").map(|s| s.parse().unwrap()).unwrap_or(0);
+    let max_pairs: usize = m.get("pairs").map(|s| s.parse().unwrap()).unwrap_or(4);
+    let n = W::archs().len();
+    let pops = default_pops(n, variant);
+    let res = vh::borrowm::pair_matrix::<W>(&pops, max_pairs);
+    if let Some(out) = m.get("out") {
+        let js = format!("{{\"combos\":{},\"conflicts\":{},\"neighbours\":{},\"samples\":[{}]}}", res.combos, res.conflicts, res.neighbours, res.samples.iter().map(|s| json_str(s)).collect::<Vec<_>>().join(","));
+        std::fs::write(out, js).expect("write stats");
+    }
+    println!("STATS prop=C11 world={} variant={} combos={} conflicts={} neighbours={}", W::NAME, variant, res.combos, res.conflicts, res.neighbours);
+    if let Some((text, msg)) = res.failure {
+        let path = m.get("fail-out").cloned().unwrap_or_else(|| "fail-C11.nest".to_string());
+        std::fs::write(&path, format!("# property C11\n# {}\n{}", one_line(&msg), text)).expect("write replay");
+        println!("FAIL prop=C11 sig=borrow-matrix tags=C11 step=0 replay={} msg={}", path, one_line(&msg));
+        return 1;
+    }
+    0
+}
+
+fn bsearch<W: WorldDriver>(m: &HashMap<String, String>) -> i32 {
+    let cases: u32 = m.get("cases").map(|s| s.parse().unwrap()).unwrap_or(300);
+    let seed: u64 = m.get("seed").map(|s| s.parse().unwrap()).unwrap_or(1);
+    let res = vh::borrowm::search::<W>(cases, seed);
+    if let Some(out) = m.get("out") {
+        std::fs::write(out, res.stats.to_json()).expect("write stats");
+    }
+    println!("STATS prop=C11 world={} evaluations={} nontrivial={}", W::NAME, res.stats.evaluations, res.stats.nontrivial_hashes.len());
+    if let Some((text, msg)) = res.failure {
+        let path = m.get("fail-out").cloned().unwrap_or_else(|| "fail-C11.nest".to_string());
+        std::fs::write(&path, format!("# property C11\n# {}\n{}", one_line(&msg), text)).expect("write replay");
+        println!("FAIL prop=C11 sig=borrow-nesting tags=C11 step=0 replay={} msg={}", path, one_line(&msg));
+        return 1;
+    }
+    0
+}
+
+fn breplay<W: WorldDriver>(pops: &[(u8, Option<u8>)], nests: &[Vec<vh::types::BAccess>], path: &str) -> i32 {
+    match vh::borrowm::check_sequence::<W>(pops, nests) {
+        Ok(_) => {
+            println!("PASS prop=C11 replay={}", path);
+            0
+        }
+        Err(msg) => {
+            println!("FAIL prop=C11 sig=borrow-nesting tags=C11 step=0 replay={} msg={}", path, one_line(&msg));
+            1
+        }
+    }
+}
+
+fn c10<W: WorldDriver>(m: &HashMap<String, String>) -> i32 {
+    let cases: u32 = m.get("cases").map(|s| s.parse().unwrap()).unwrap_or(20);
+    let len: usize = m.get("len").map(|s| s.parse().unwrap()).unwrap_or(60);
+    let seed: u64 = m.get("seed").map(|s| s.parse().unwrap()).unwrap_or(1);
+    let max_k: u64 = m.get("max-k").map(|s| s.parse().unwrap()).unwrap_or(1000);
+    let cfg = Cfg::new(intensity(m.get("intensity")));
+    match vh::c10::fixed_scenarios::<W>() {
+        Ok(_) => {}
+        Err(msg) => {
+            let path = m.get("fail-out").cloned().unwrap_or_else(|| format!("fail-C10-{}.ops", seed));
+            std::fs::write(&path, format!("# property C10\n# {}\nworld {}\nctor 2\ncaps 16777217\n", msg, W::NAME)).expect("write replay");
+            println!("FAIL prop=C10 sig=ctor-capacity-panic tags=C10 step=0 replay={} msg={}", path, one_line(&msg));
+            return 1;
+        }
+    }
+    let res = vh::c10::search::<W>(&cfg, cases, len, seed, max_k, m.get("last-case").map(|s| s.as_str()));
+    if let Some(out) = m.get("out") {
+        let mut js = res.stats.to_json();
+        js.pop();
+        js.push_str(&format!(",\"runs\":{},\"points\":{},\"fired\":{},\"by_site\":[{},{},{}],\"nontrivial_points\":[{}]}}", res.runs, res.points, res.fired, res.by_site[0], res.by_site[1], res.by_site[2], res.nontrivial.iter().map(|h| format!("\"{:016x}\"", h)).collect::<Vec<_>>().join(",")));
+        std::fs::write(out, js).expect("write stats");
+    }
+    println!("STATS prop=C10 world={} cases={} runs={} points={} fired={} nontrivial={}", W::NAME, res.stats.evaluations, res.runs, res.points, res.fired, res.nontrivial.len());
+    if let Some((case, inj, f)) = res.failure {
+        let path = m.get("fail-out").cloned().unwrap_or_else(|| format!("fail-C10-{}.ops", seed));
+        let inj_line = inj.map(|i| vh::c10::inject_line(&i)).unwrap_or_default();
+        let text = format!("# property C10\n# {}\n# failed at step {} [{}] sig={}\n{}{}\n", one_line(&f.msg), f.step, f.tags.join("+"), f.sig, case.to_text(), inj_line);
+        std::fs::write(&path, text).expect("write replay");
+        println!("FAIL prop=C10 sig={} tags={} step={} replay={} msg={}", f.sig, f.tags.join("+"), f.step, path, one_line(&f.msg));
         return 1;
     }
     0
@@ -114,10 +216,18 @@ fn conv_replay<W: WorldDriver>(lines: &[String], path: &str) -> i32 {
 fn replay<W: WorldDriver>(prop: &str, case: &Case, path: &str, m: &HashMap<String, String>) -> i32 {
     let mut cfg = Cfg::new(intensity(m.get("intensity").or(Some(&"full".to_string()))));
     cfg.max_sims = 3;
+    if let Ok(text) = std::fs::read_to_string(path) {
+        cfg.inject = vh::c10::parse_inject(&text);
+        if cfg.inject.is_some() {
+            // injected runs are enumerated at normal intensity: replay them the same way
+            cfg.intensity = intensity(m.get("intensity"));
+        }
+    }
     let out = Session::<W>::run(case, &cfg);
     match out.fail {
         Some(f) if f.tags.iter().any(|t| *t == prop) => {
-            println!("FAIL prop={} sig={} tags={} step={} replay={} msg={}", prop, f.sig, f.tags.join("+"), f.step, path, one_line(&f.msg));
+            let (sig, msg) = f.for_prop(prop);
+            println!("FAIL prop={} sig={} tags={} step={} replay={} msg={}", prop, sig, f.tags.join("+"), f.step, path, one_line(&msg));
             1
         }
         Some(f) => {
@@ -157,6 +267,29 @@ fn main() {
         "hist" => {
             let world = m.get("world").cloned().unwrap_or_else(|| "WMix".to_string());
             dispatch_world(&world, || hist::<vh::worlds::wmix::WMix>(&m), || hist::<vh::worlds::wone::WOne>(&m), || hist::<Wide>(&m)).unwrap_or(3)
+        }
+        "bmatrix" => {
+            let world = m.get("world").cloned().unwrap_or_else(|| "WMix".to_string());
+            dispatch_world(&world, || bmatrix::<vh::worlds::wmix::WMix>(&m), || bmatrix::<vh::worlds::wone::WOne>(&m), || bmatrix::<Wide>(&m)).unwrap_or(3)
+        }
+        "bsearch" => {
+            let world = m.get("world").cloned().unwrap_or_else(|| "WMix".to_string());
+            dispatch_world(&world, || bsearch::<vh::worlds::wmix::WMix>(&m), || bsearch::<vh::worlds::wone::WOne>(&m), || bsearch::<Wide>(&m)).unwrap_or(3)
+        }
+        "b-replay" => {
+            let path = pos.first().expect("replay file");
+            let text = std::fs::read_to_string(path).expect("read replay");
+            match vh::borrowm::text_to_nests(&text) {
+                Ok((world, pops, nests)) => dispatch_world(&world, || breplay::<vh::worlds::wmix::WMix>(&pops, &nests, path), || breplay::<vh::worlds::wone::WOne>(&pops, &nests, path), || breplay::<Wide>(&pops, &nests, path)).unwrap_or(3),
+                Err(e) => {
+                    eprintln!("cannot parse {}: {}", path, e);
+                    3
+                }
+            }
+        }
+        "c10" => {
+            let world = m.get("world").cloned().unwrap_or_else(|| "WMix".to_string());
+            dispatch_world(&world, || c10::<vh::worlds::wmix::WMix>(&m), || c10::<vh::worlds::wone::WOne>(&m), || c10::<Wide>(&m)).unwrap_or(3)
         }
         "conv" => {
             let world = m.get("world").cloned().unwrap_or_else(|| "WMix".to_string());
